@@ -105,6 +105,13 @@ def rw_R8(text):
     return pat.sub(lambda m: _keep_lines(m.group(0)), text), n
 
 
+def rw_R10(text):
+    """for (i, x) in V.iter().enumerate() {   ->   for i in 0..V.len() { let x = &V[i];"""
+    pat = re.compile(r'for\s+\(\s*(\w+)\s*,\s*(\w+)\s*\)\s+in\s+([\w\.]+)\.iter\(\)\.enumerate\(\)\s*\{')
+    n = len(pat.findall(text))
+    return pat.sub(lambda m: 'for %s in 0..%s.len() { let %s = &%s[%s];' % (m.group(1), m.group(3), m.group(2), m.group(3), m.group(1)), text), n
+
+
 def rw_R9(text):
     """RECV.map(|PAT| BODY)  ->  (match RECV { Some(PAT) => Some(BODY), None => None })   for a simple-path receiver"""
     n = 0
@@ -131,7 +138,7 @@ def rw_R9(text):
     return out, n
 
 
-REWRITES = {'R9': rw_R9, 'R1': rw_R1, 'R2': rw_R2, 'R3': rw_R3, 'R4': rw_R4, 'R5': rw_R5, 'R8': rw_R8}
+REWRITES = {'R10': rw_R10, 'R9': rw_R9, 'R1': rw_R1, 'R2': rw_R2, 'R3': rw_R3, 'R4': rw_R4, 'R5': rw_R5, 'R8': rw_R8}
 REWRITE_DOC = {
     'R1': 'for &T{f,..} in &E[a..b]  ->  for __i in a..b { let f = E[__i].f; (Verus: no ref patterns)',
     'R2': 'Some(&b) => b  ->  Some(b) => *b (Verus: no ref patterns)',
@@ -142,6 +149,7 @@ REWRITE_DOC = {
     'R7': 'visibility modifiers / attributes / doc comments of extracted items dropped; struct fields made pub',
     'R8': 'dropped: #[cfg(all(test, feature = "std"))] PATTERN_MAPPING statement',
     'R9': 'RECV.map(|PAT| BODY) -> match RECV { Some(PAT) => Some(BODY), None => None } (Verus cannot reason about un-annotated closures)',
+    'R10': 'for (i, x) in V.iter().enumerate() -> for i in 0..V.len() { let x = &V[i]; (Verus: no iterator adapters)',
     'ARMSUB': 'a named match arm (delegation to regex-automata) is replaced by a call to an assumed shim; the dropped text is listed in dropped_code',
 }
 
